@@ -192,6 +192,11 @@ def loops(ctx, jf: JoinFacts) -> None:
             if isinstance(t, ast.Subscript) and isinstance(t.value, ast.Name) and t.value.id == jf.index_var \
                     and s is not jf.index_first_store:
                 problems.append(("the index is written outside the first-sight store", s))
+    # every right row is indexed: nothing in the index loop can skip or stop
+    for s_ in walk_stmts(jf.index_loop.body):
+        if isinstance(s_, (ast.Continue, ast.Break, ast.Return)):
+            problems.append((f"`{type(s_).__name__.lower()}` in the index loop (line {s_.lineno}): some right rows would not be indexed "
+                             f"(e.g. keys containing None) although they are key-equal to left rows", s_))
     # first-sight test: `bucket is None` -> store, else append
     fs_guards = _guards_of(jf, jf.index_first_store)
     okfs = False
@@ -545,6 +550,28 @@ def siblings(ctx, facts: Dict[str, JoinFacts]) -> None:
                matched_block(jf) or jf.f.node,
                message=f"{v}: the matched-pair emission differs from inner_join's (inner ⊆ left ⊆ full is no longer "
                        f"structural): inner_join {ref} vs {v} {mf}")
+
+
+def no_early_result(ctx, jf: JoinFacts, rule: str) -> None:
+    """Every `return` of a join comes after the probe loop (and the sweep): no fast path can bypass emission, padding
+    or the cardinality checks that live in the loops."""
+    from ..cfg import cfg_of
+    f = jf.f
+    cfg = cfg_of(f)
+    probe = cfg.node_of(jf.probe_loop)
+    after = [probe] + ([cfg.node_of(jf.sweep_loop)] if jf.sweep_loop is not None else []) + [cfg.node_of(jf.index_loop)]
+    problems = []
+    for n in cfg.stmt_nodes():
+        if isinstance(n.ast, ast.Return) and cfg.is_reachable(n):
+            for lp in after:
+                inside = any(x is n.ast for x in walk_stmts(lp.ast.body))
+                if inside or not cfg.dominates(lp, n):
+                    problems.append((f"`{short(n.ast, 60)}` (line {n.lineno}) can return without running the "
+                                     f"{'probe' if lp is probe else 'index' if lp is after[-1] else 'sweep'} loop to completion: rows, None "
+                                     f"padding and the uniqueness checks performed there are bypassed", n.ast))
+                    break
+    ctx.ob(rule, f, "returns", not problems, f"{jf.variant}: every return follows the index, probe (and sweep) loops",
+           problems[0][1] if problems else f.node, message=f"{jf.variant}: " + "; ".join(p for p, _ in problems[:2]))
 
 
 # --------------------------------------------------------------------------- C10
